@@ -656,6 +656,40 @@ pub fn computed_targets(rng: &mut StdRng) -> Program {
     Program { family: fam.into(), code }
 }
 
+/// Code longer than 24 576 bytes (the size limit of deployed contracts, not of code the tool is given) whose jumps
+/// aim at JUMPDESTs beyond that offset: offsets are offsets, wherever they lie.
+pub fn long_code(rng: &mut StdRng, base: usize) -> Program {
+    let conditional = rng.gen_bool(0.5);
+    let mut code: Vec<u8> = Vec::new();
+    if conditional {
+        code.push(CALLDATASIZE);
+    }
+    let at = code.len();
+    code.extend([0x61, 0, 0, if conditional { JUMPI } else { JUMP }]);
+    code.extend([0x60, 0x01, 0x60, 0x0d, SSTORE, STOP]);
+    // dead filler: zero bytes, with JUMPDESTs sprinkled in
+    let total = base + [0usize, 1, 5, 70][rng.gen_range(0..4)];
+    while code.len() < total {
+        code.push(if rng.gen_bool(0.01) { 0x5b } else { 0x00 });
+    }
+    // exactly at the limit, just below it, or beyond
+    let target = match rng.gen_range(0..3) {
+        0 => {
+            code.truncate(base - 1);
+            base - 1
+        }
+        1 => {
+            code.truncate(base);
+            base
+        }
+        _ => code.len(),
+    };
+    code.extend([0x5b, 0x60, 0x02, 0x60, 0x0e, SSTORE, STOP]);
+    code[at + 1] = (target >> 8) as u8;
+    code[at + 2] = (target & 0xff) as u8;
+    Program { family: if base >= 24_576 { "long-code" } else { "far-jump" }.into(), code }
+}
+
 pub fn code_edges(rng: &mut StdRng) -> Program {
     let conditional = rng.gen_bool(0.6);
     let mut code: Vec<u8> = Vec::new();
